@@ -416,6 +416,13 @@ def gen_moves(rng, tier):
             out.append(case(m[:i] + chr(max(0, ord(m[i]) + rng.choice([-49, -32, -17, -1, 1, 8, 9, 32, 0xfee0]))) + m[i + 1:]))
         else:
             out.append(case(random_string(rng)[:rng.choice([3, 4, 5, 6])]))
+    # integer-width aliasing: a character whose code point equals a valid one modulo 2^8 / 2^16 (e.g. U+0165 for 'e',
+    # U+0132 for '2') must not be read as that character; every position of a valid move text, several offsets
+    offs = [0x100, 0x200, 0x500, 0x1000, 0x10000, 0x20000] if tier != "quick" else [0x100, 0x500, 0x10000]
+    for m in rng.sample(every, 60 if tier == "quick" else 1500):
+        for i in range(len(m)):
+            for o in offs:
+                out.append(case(m[:i] + chr(ord(m[i]) + o) + m[i + 1:]))
     return out
 
 
